@@ -12,6 +12,10 @@ COMMON_NOTE = (
     "functions; it does NOT prove the behavioural equality the property states as a whole. Trusted: CPython's ast, the mdsa engine "
     "(loader, statement CFG, syntactic callee resolution), the stated models of externals (h5py mode 'r' is read-only, pathlib "
     "is_file/is_dir follow symlinks, wrapt.ObjectProxy forwarding, pydantic v1). "
+    "Besides the hand-written rules Cnn.R*, every check runs the refinement rules Cnn.P1-P7 (rules/pinned.py) over every function of "
+    "the modules the property is anchored in: the facts recorded on the reviewed tree (mdsa/pinned_summaries.json: totality, refusals, "
+    "guard calls, defaults, first/last index, decision tables, the condition of every effect as a boolean function of the tested atoms) "
+    "must still be refined by the tree under analysis; a re-spelled condition or effect gives no verdict (DESIGN.md 11.8). "
 )
 
 CHECKS = {
